@@ -200,12 +200,13 @@ def clause_b(ctx, P):
     wr = P.one("DnsOutPacket::write_record")
     tr = tracer(P, wr)
     # snapshot
+    # the snapshot: the size() call that precedes every other call of the function (whatever its local is called)
     snap = None
     for b, t in wr.calls():
         if name_matches(cname(t), "DnsOutPacket::size") and t["dest"]["l"] is not None:
-            if wr.locals[_named_dest(wr, b, t)].get("name") == "start_size":
+            if all(wr.dominates(b, b2) for b2, _t2 in wr.calls()):
                 snap = b
-    ctx.require(snap is not None, "C02b.anchor", wr.name, wr.loc(), "snapshot `start_size = self.size()` found")
+    ctx.require(snap is not None, "C02b.anchor", wr.name, wr.loc(), "snapshot `self.size()` taken before anything else is called")
     if snap is None:
         return
     # size test and rollback arm
